@@ -265,17 +265,37 @@ fn replay_forged(c: &mut Concretiser, idx: usize, case: &Value) -> Value {
 }
 
 pub fn cmd_forged(input: &str, output: &str) {
+    use std::io::{BufRead, Write};
     util::quiet_panics();
-    let cases = util::read_ndjson(input);
     let table = payload_table();
-    let rows = util::par_map(
-        cases,
-        move || Concretiser::new(table.clone()),
-        |c, i, case| replay_forged(c, i, case),
-    );
-    util::write_ndjson(output, &rows);
-    let bad = rows.iter().filter(|r| !r["ok"].as_bool().unwrap()).count();
-    println!("chain-forged: {} cases, {} disagreements", rows.len(), bad);
+    // exports can be several GB: the cases are streamed in batches
+    let f = std::fs::File::open(input).unwrap_or_else(|e| panic!("open {input}: {e}"));
+    let mut out = std::io::BufWriter::new(std::fs::File::create(output).unwrap());
+    let mut lines = std::io::BufReader::new(f).lines();
+    let (mut total, mut bad) = (0usize, 0usize);
+    loop {
+        let mut batch: Vec<Value> = Vec::new();
+        for line in lines.by_ref().take(100_000) {
+            let line = line.unwrap();
+            if !line.trim().is_empty() {
+                batch.push(serde_json::from_str(line.trim()).unwrap_or_else(|e| panic!("bad json: {e}")));
+            }
+        }
+        if batch.is_empty() {
+            break;
+        }
+        let base = total;
+        let t = table.clone();
+        let rows = util::par_map(batch, move || Concretiser::new(t.clone()), move |c, i, case| replay_forged(c, base + i, case));
+        for r in &rows {
+            if !r["ok"].as_bool().unwrap() {
+                bad += 1;
+            }
+            writeln!(out, "{}", r).unwrap();
+        }
+        total += rows.len();
+    }
+    println!("chain-forged: {} cases, {} disagreements", total, bad);
 }
 
 // ---------------------------------------------------------------- honest logs
